@@ -172,3 +172,7 @@ def r2_release_protocol(ctx):
 def run(ctx):
     r1_conservation(ctx)
     r2_release_protocol(ctx)
+
+
+from .selftest import for_families as _ff  # noqa: E402
+selftest = _ff(['gate'])
